@@ -581,6 +581,43 @@ func shRun(c *mon.Ctx, prop string, forkid bool, judge func(*mon.Ctx, *shCase)) 
 			}
 		}
 	}
+	c.Phase("one-object-per-value") // the inputs spend one script / several outputs of one transaction, and equal values are one object in memory
+	{
+		n = 0
+		types := []uint8{0x41, 0x42, 0x43, 0xc1, 0xc2, 0xc3}
+		if !forkid {
+			types = []uint8{0x01, 0x02, 0x03, 0x81, 0x82, 0x83, 0x00}
+		}
+		for ni := 2; ni <= 5; ni++ {
+			for _, t := range types {
+				n++
+				if !c.Case(n) {
+					continue
+				}
+				r := c.Rand(n)
+				s := gen.ShapeN(r, ni, 1+int(n%4), gen.ShapeOpts{ScriptLens: []int{25, 26}})
+				spent, id := r.Bytes(25), r.Bytes(32)
+				for i := range s.Ins {
+					s.Ins[i].PrevScriptNil = false
+					if i != ni-1 || n%3 != 0 { // all (or all but the last) spend the same script
+						s.Ins[i].PrevScript = spent
+					}
+					if i%2 == 0 {
+						s.Ins[i].TxID, s.Ins[i].Vout = id, uint32(i)
+					}
+				}
+				for i := range s.Outs {
+					if i > 0 && r.Bool() {
+						s.Outs[i].Script = s.Outs[0].Script
+					}
+				}
+				s.OneObject = true
+				for idx := 0; idx < ni; idx++ {
+					judge(c, &shCase{Shape: *s, Idx: uint32(idx), HashType: t})
+				}
+			}
+		}
+	}
 	c.Phase("random-shapes")
 	N := uint64(5000)
 	if c.Thorough {
